@@ -166,18 +166,10 @@ Definition w_private_refused : bytes :=
 Definition w_private_misread : bytes :=
   str "[t]" ++ [x0a] ++ str """$__toml_private_datetime"" = ""1979-05-27""" ++ [x0a] ++ str "b = 1" ++ [x0a].
 
-Definition is_deerr (r : fres tomlval) : bool := match r with FDeErr => true | _ => false end.
-
-Lemma private_key_refused_b :
-  match parse_document w_private_refused with
-  | POk d => match tree_of_doc d with
-             | Some x => tree_ready x && has_private_key_below_root x
-             | None => false
-             end
-  | _ => false
-  end && is_deerr (toml_from_str_table w_private_refused) && is_deerr (toml_from_str_value w_private_refused)
-  && is_deerr (from_slice_table w_private_refused) = true.
-Proof. vm_compute. reflexivity. Qed.
+(* the witnesses are computed: the parsed document and its tree are closed terms *)
+Definition dummy_doc : doc := mkDoc (Tbl [] decor_default false false None None) REmpty.
+Definition doc_of (s : bytes) : doc := match parse_document s with POk d => d | _ => dummy_doc end.
+Definition tree_of (s : bytes) : tomlval := match tree_of_doc (doc_of s) with Some x => x | None => VTab [] end.
 
 Lemma private_key_refused :
   exists d x, parse_document w_private_refused = POk d /\ tree_of_doc d = Some x /\ tree_ready x = true /\
@@ -185,58 +177,38 @@ Lemma private_key_refused :
               toml_from_str_table w_private_refused = FDeErr /\ toml_from_str_value w_private_refused = FDeErr /\
               from_slice_table w_private_refused = FDeErr.
 Proof.
-  pose proof private_key_refused_b as H.
-  destruct (parse_document w_private_refused) as [d| |]; try discriminate. destruct (tree_of_doc d) as [x|]; try discriminate.
-  apply andb_true_iff in H as [H H4]. apply andb_true_iff in H as [H H3]. apply andb_true_iff in H as [H H2].
-  apply andb_true_iff in H as [H0 H1].
-  exists d, x. repeat split; try assumption.
-  - destruct (toml_from_str_table w_private_refused); try discriminate; reflexivity.
-  - destruct (toml_from_str_value w_private_refused); try discriminate; reflexivity.
-  - destruct (from_slice_table w_private_refused); try discriminate; reflexivity.
+  exists (doc_of w_private_refused), (tree_of w_private_refused).
+  split; [vm_compute; reflexivity|]. split; [vm_compute; reflexivity|]. split; [vm_compute; reflexivity|].
+  split; [vm_compute; reflexivity|]. split; [vm_compute; reflexivity|]. split; vm_compute; reflexivity.
 Qed.
 
 (* accepted, but the table t is taken for a date-time: the key b is lost *)
 Definition misread_value : tomlval := VTab [(str "t", VDatetime (mkDT (Some (mkDate 1979 5 27)) None None))].
-Fixpoint tv_eqb (a b : tomlval) : bool :=
-  match a, b with
-  | VStr x, VStr y => bytes_eqb x y
-  | VInt x, VInt y => (x =? y)%Z
-  | VFloat x, VFloat y => (x =? y)%N
-  | VBool x, VBool y => Bool.eqb x y
-  | VDatetime x, VDatetime y => bytes_eqb (display_datetime x) (display_datetime y)
-  | VArr xs, VArr ys => all2b tv_eqb xs ys
-  | VTab xs, VTab ys => all2b (fun p q => bytes_eqb (fst p) (fst q) && tv_eqb (snd p) (snd q)) xs ys
-  | _, _ => false
-  end.
-Lemma tv_eqb_refl a : tv_eqb a a = true.
-Proof.
-  induction a using tomlval_ind2; cbn [tv_eqb]; try apply bytes_eqb_refl.
-  - apply Z.eqb_refl. - apply N.eqb_refl. - destruct b; reflexivity.
-  - induction H as [|y l Hy _ IH]; [reflexivity|]. cbn [all2b]. rewrite Hy, IH. reflexivity.
-  - induction H as [|y l Hy _ IH]; [reflexivity|]. cbn [all2b]. rewrite bytes_eqb_refl, Hy, IH. reflexivity.
-Qed.
-
-Lemma private_key_misread_b :
-  match parse_document w_private_misread with
-  | POk d => match tree_of_doc d with
-             | Some x => tree_ready x && negb (tv_eqb misread_value (canon_value true x))
-             | None => false
-             end
-  | _ => false
-  end && match toml_from_str_value w_private_misread with FOk v => tv_eqb v misread_value | _ => false end = true.
-Proof. vm_compute. reflexivity. Qed.
-
-Lemma toml_value_misread : toml_from_str_value w_private_misread = FOk misread_value.
-Proof. vm_compute. reflexivity. Qed.
 
 Lemma private_key_misread :
   exists d x v, parse_document w_private_misread = POk d /\ tree_of_doc d = Some x /\ tree_ready x = true /\
                 toml_from_str_value w_private_misread = FOk v /\ v <> canon_value true x /\
                 v = VTab [(str "t", VDatetime (mkDT (Some (mkDate 1979 5 27)) None None))].
 Proof.
-  pose proof private_key_misread_b as H.
-  destruct (parse_document w_private_misread) as [d| |]; try discriminate. destruct (tree_of_doc d) as [x|]; try discriminate.
-  apply andb_true_iff in H as [H _]. apply andb_true_iff in H as [H0 H1]. apply negb_true_iff in H1.
-  exists d, x, misread_value. repeat split; try assumption; [apply toml_value_misread|].
-  intro E. rewrite <- E, tv_eqb_refl in H1. discriminate.
+  exists (doc_of w_private_misread), (tree_of w_private_misread), misread_value.
+  split; [vm_compute; reflexivity|]. split; [vm_compute; reflexivity|]. split; [vm_compute; reflexivity|].
+  split; [vm_compute; reflexivity|]. split; [|reflexivity]. vm_compute. discriminate.
+Qed.
+
+(* z = 1 / [b] / y = 1979-05-27 / x = { q = [1, 2], p = "s" } / [[a]] / k = true *)
+Definition ex_doc : bytes :=
+  str "z = 1" ++ [x0a] ++ str "[b]" ++ [x0a] ++ str "y = 1979-05-27" ++ [x0a] ++ str "x = { q = [1, 2], p = ""s"" }" ++ [x0a]
+  ++ str "[[a]]" ++ [x0a] ++ str "k = true" ++ [x0a].
+Lemma serde_example :
+  exists d x, parse_document ex_doc = POk d /\ tree_of_doc d = Some x /\ tree_ready x = true /\ has_private_key x = false /\
+              toml_from_str_value ex_doc = FOk (canon_value true x) /\
+              canon_value true x
+              = VTab [(str "a", VArr [VTab [(str "k", VBool true)]]);
+                      (str "b", VTab [(str "x", VTab [(str "p", VStr (str "s")); (str "q", VArr [VInt 1; VInt 2])]);
+                                      (str "y", VDatetime (mkDT (Some (mkDate 1979 5 27)) None None))]);
+                      (str "z", VInt 1)].
+Proof.
+  exists (doc_of ex_doc), (tree_of ex_doc).
+  split; [vm_compute; reflexivity|]. split; [vm_compute; reflexivity|]. split; [vm_compute; reflexivity|].
+  split; [vm_compute; reflexivity|]. split; vm_compute; reflexivity.
 Qed.
